@@ -1313,3 +1313,263 @@ func knownEmpty(facts []canonCond, mv func(ssa.Value) bool) bool {
 func knownNil(facts []canonCond, mv func(ssa.Value) bool) bool {
 	return cmpHolds(facts, mv, isNilConst, token.EQL)
 }
+
+// byteSliceConst: v is a []byte whose contents are a compile-time constant: []byte("..."),
+// []byte{'a', ...}, or a package-level variable initialised that way and never assigned again.
+func byteSliceConst(w *World, v ssa.Value, d int) (string, bool) {
+	if d > 3 {
+		return "", false
+	}
+	switch x := v.(type) {
+	case *ssa.Convert:
+		if s, ok := constString(x.X); ok {
+			return s, true
+		}
+	case *ssa.Slice:
+		var arr ssa.Value = x.X
+		if x.Low != nil || x.High != nil {
+			return "", false
+		}
+		al, ok := arr.(*ssa.Alloc)
+		if !ok {
+			if g, isG := arr.(*ssa.Global); isG {
+				// package-level composite literals are built in a hidden global array
+				return globalArrayBytes(w, g)
+			}
+			return "", false
+		}
+		n, ok := arrayLen(derefType(al.Type()))
+		if !ok {
+			return "", false
+		}
+		buf := make([]byte, n)
+		set := 0
+		for _, ref := range referrers(al) {
+			ia, ok := ref.(*ssa.IndexAddr)
+			if !ok {
+				continue
+			}
+			idx, okI := constInt(ia.Index)
+			for _, r2 := range referrers(ia) {
+				if st, ok := r2.(*ssa.Store); ok && st.Addr == ssa.Value(ia) {
+					b, okB := constInt(st.Val)
+					if !okI || !okB || idx < 0 || idx >= n {
+						return "", false
+					}
+					buf[idx] = byte(b)
+					set++
+				}
+			}
+		}
+		if int64(set) != n {
+			return "", false
+		}
+		return string(buf), true
+	case *ssa.UnOp:
+		if x.Op != token.MUL {
+			return "", false
+		}
+		g, ok := x.X.(*ssa.Global)
+		if !ok {
+			return "", false
+		}
+		var val ssa.Value
+		stores := 0
+		for _, fn := range w.ModuleFuncs() {
+			eachInstr(fn, func(in ssa.Instruction) {
+				if st, ok := in.(*ssa.Store); ok && st.Addr == ssa.Value(g) {
+					stores++
+					val = st.Val
+				}
+			})
+		}
+		if init := g.Pkg.Func("init"); init != nil {
+			eachInstr(init, func(in ssa.Instruction) {
+				if st, ok := in.(*ssa.Store); ok && st.Addr == ssa.Value(g) {
+					stores++
+					val = st.Val
+				}
+			})
+		}
+		if stores != 1 {
+			return "", false
+		}
+		return byteSliceConst(w, val, d+1)
+	}
+	return "", false
+}
+
+func globalArrayBytes(w *World, g *ssa.Global) (string, bool) {
+	init := g.Pkg.Func("init")
+	if init == nil {
+		return "", false
+	}
+	n, ok := arrayLen(derefType(g.Type()))
+	if !ok {
+		return "", false
+	}
+	buf := make([]byte, n)
+	set := int64(0)
+	bad := false
+	eachInstr(init, func(in ssa.Instruction) {
+		ia, ok := in.(*ssa.IndexAddr)
+		if !ok || ia.X != ssa.Value(g) {
+			return
+		}
+		idx, okI := constInt(ia.Index)
+		for _, r2 := range referrers(ia) {
+			if st, ok := r2.(*ssa.Store); ok && st.Addr == ssa.Value(ia) {
+				b, okB := constInt(st.Val)
+				if !okI || !okB || idx < 0 || idx >= n {
+					bad = true
+					return
+				}
+				buf[idx] = byte(b)
+				set++
+			}
+		}
+	})
+	if bad || set != n {
+		return "", false
+	}
+	return string(buf), true
+}
+
+// ---------- string prefix / suffix idioms ----------
+
+func litIs(v ssa.Value, lit string) bool { c, ok := constString(v); return ok && c == lit }
+
+// strPrefixTest: v is a boolean meaning "S starts (ends) with lit": strings.HasPrefix(S, lit) or
+// the second result of strings.CutPrefix(S, lit).  Returns S.
+func strPrefixTest(v ssa.Value, lit string, suffix bool) (ssa.Value, bool) {
+	has, cut := "strings.HasPrefix", "strings.CutPrefix"
+	if suffix {
+		has, cut = "strings.HasSuffix", "strings.CutSuffix"
+	}
+	switch x := v.(type) {
+	case *ssa.Call:
+		if isCall(x, has) && litIs(x.Call.Args[1], lit) {
+			return x.Call.Args[0], true
+		}
+		// a local predicate whose body is that test
+		if callee, _ := localCallee(x); callee != nil && len(callee.Params) == 1 && len(x.Call.Args) == 1 {
+			want := has + "(p0," + fmt.Sprintf("%q", lit) + ")"
+			if predicateRenders(callee, want) {
+				return x.Call.Args[0], true
+			}
+		}
+	case *ssa.Extract:
+		if c, ok := x.Tuple.(*ssa.Call); ok && x.Index == 1 && isCall(c, cut) && litIs(c.Call.Args[1], lit) {
+			return c.Call.Args[0], true
+		}
+	}
+	return nil, false
+}
+
+// predicateRenders: fn is a single-expression function whose result renders as want (over p0..).
+func predicateRenders(fn *ssa.Function, want string) bool {
+	if fn == nil || len(fn.Blocks) != 1 {
+		return false
+	}
+	ret, ok := fn.Blocks[0].Instrs[len(fn.Blocks[0].Instrs)-1].(*ssa.Return)
+	if !ok || len(ret.Results) != 1 {
+		return false
+	}
+	return symRender(ret.Results[0], &renderEnv{root: fn}, 0) == want
+}
+
+// strStripped: v is S with the prefix (suffix) lit removed: S[len(lit):] / S[:len(S)-len(lit)]
+// (needsGuard: only correct when the test succeeded), the first result of strings.Cut*(S, lit),
+// or strings.Trim*(S, lit).
+func strStripped(v ssa.Value, lit string, suffix bool) (src ssa.Value, needsGuard, ok bool) {
+	cut, trim := "strings.CutPrefix", "strings.TrimPrefix"
+	if suffix {
+		cut, trim = "strings.CutSuffix", "strings.TrimSuffix"
+	}
+	switch x := v.(type) {
+	case *ssa.Extract:
+		if c, isC := x.Tuple.(*ssa.Call); isC && x.Index == 0 && isCall(c, cut) && litIs(c.Call.Args[1], lit) {
+			return c.Call.Args[0], false, true
+		}
+	case *ssa.Call:
+		if isCall(x, trim) && litIs(x.Call.Args[1], lit) {
+			return x.Call.Args[0], false, true
+		}
+	case *ssa.Slice:
+		if !suffix {
+			if lo, isC := constInt(x.Low); isC && lo == int64(len(lit)) && x.High == nil {
+				return x.X, true, true
+			}
+		} else if x.High != nil {
+			if b := asBinOp(x.High, token.SUB); b != nil {
+				if k, isC := constInt(b.Y); isC && k == int64(len(lit)) && strings.Contains(pathOf(b.X), "builtin len") {
+					if lo, isL := constInt(x.Low); x.Low == nil || (isL && lo == 0) {
+						return x.X, true, true
+					}
+				}
+			}
+		}
+	}
+	return nil, false, false
+}
+
+// firstMatchOf: v is s[idx] with idx = slices.IndexFunc(s, pred) and idx >= 0 known at block b;
+// returns the predicate function.
+func firstMatchOf(v ssa.Value, b *ssa.BasicBlock) (*ssa.Function, bool) {
+	ld, ok := v.(*ssa.UnOp)
+	if !ok || ld.Op != token.MUL {
+		return nil, false
+	}
+	ia, ok := ld.X.(*ssa.IndexAddr)
+	if !ok {
+		return nil, false
+	}
+	call, ok := ia.Index.(*ssa.Call)
+	if !ok || !strings.HasPrefix(calleeName(call), "slices.IndexFunc") {
+		return nil, false
+	}
+	isIdx := func(x ssa.Value) bool { return x == ssa.Value(call) }
+	isZero := func(x ssa.Value) bool { n, ok := constInt(x); return ok && n == 0 }
+	isM1 := func(x ssa.Value) bool { n, ok := constInt(x); return ok && n == -1 }
+	fs := factsAt(b)
+	if !(cmpHolds(fs, isIdx, isZero, token.GEQ) || cmpHolds(fs, isIdx, isM1, token.GTR, token.NEQ)) {
+		return nil, false
+	}
+	if pathOf(call.Call.Args[0]) != pathOf(ia.X) {
+		return nil, false
+	}
+	switch f := call.Call.Args[1].(type) {
+	case *ssa.Function:
+		return f, true
+	case *ssa.MakeClosure:
+		if fn, ok := f.Fn.(*ssa.Function); ok {
+			return fn, true
+		}
+	}
+	return nil, false
+}
+
+// globalInitValue: the value a package-level variable is initialised with, if that is its only
+// assignment in the module (an effectively constant global).
+func globalInitValue(w *World, g *ssa.Global) ssa.Value {
+	var val ssa.Value
+	stores := 0
+	visit := func(fn *ssa.Function) {
+		eachInstr(fn, func(in ssa.Instruction) {
+			if st, ok := in.(*ssa.Store); ok && st.Addr == ssa.Value(g) {
+				stores++
+				val = st.Val
+			}
+		})
+	}
+	for _, fn := range w.ModuleFuncs() {
+		visit(fn)
+	}
+	if init := g.Pkg.Func("init"); init != nil {
+		visit(init)
+	}
+	if stores != 1 {
+		return nil
+	}
+	return val
+}
